@@ -20,7 +20,7 @@ VOCABULARY = {'crdts::identifier::rational_between'}
 PLUMBING_TRAITS = {'Extend', 'FromIterator', 'AsRef', 'AsMut', 'Borrow', 'BorrowMut', 'Deref', 'DerefMut', 'Index', 'IndexMut'}
 
 
-def _callee_body(facts, t):
+def _callee_body(facts, t, same_type=None):
     c = t.get('callee')
     if not c or not (c.get('local') or str(c.get('resolved') or '').startswith(('crdts::', '<crdts::'))):
         return None
@@ -30,6 +30,10 @@ def _callee_body(facts, t):
         return None
     if uid in VOCABULARY:
         return None
+    if same_type is not None and cb.impl_self == same_type and cb.impl_self:
+        # level 'p': one API function of a type written in terms of another one of the SAME type (add -> add_all,
+        # insert -> apply, update -> apply, merge -> apply): the callee is this type's own code, whatever its visibility
+        return cb
     if cb.impl_trait:
         # methods of the crate's own traits are the vocabulary the rules speak (apply, merge, reset_remove, validate_*); impls of
         # std *plumbing* traits (Extend, FromIterator, AsRef, ..) written for a crate type are helpers under another name
@@ -97,8 +101,11 @@ def _shift_term(t, off_l, off_b, cont):
     return t
 
 
-def inlined(facts, body, depth=0, stack=(), t1=True, t2=True):
-    key = (facts.serial, body.uid, t1, t2)
+def inlined(facts, body, depth=0, stack=(), t1=True, t2=True, same_type=None):
+    # t1: False | True (private helpers + plumbing impls) | 'p' (also the other functions of the same type)
+    if t1 == 'p' and same_type is None:
+        same_type = body.impl_self or (facts.by_uid.get(body.parent).impl_self if body.parent and facts.by_uid.get(body.parent) else None) or ''
+    key = (facts.serial, body.uid, t1, t2, same_type)
     if depth == 0 and key in _cache:
         return _cache[key]
     blocks = copy.deepcopy(body.blocks)
@@ -109,9 +116,9 @@ def inlined(facts, body, depth=0, stack=(), t1=True, t2=True):
         blk = blocks[i]
         t = blk['term']
         if t1 and not blk['cleanup'] and t['k'] == 'call' and t.get('target') is not None and depth < MAX_DEPTH:
-            cb = _callee_body(facts, t)
+            cb = _callee_body(facts, t, same_type if t1 == 'p' else None)
             if cb is not None and cb.uid not in stack and cb.uid != body.uid and cb.arg_count == len(t['args']):
-                cin = inlined(facts, cb, depth + 1, stack + (body.uid,), t1, t2)
+                cin = inlined(facts, cb, depth + 1, stack + (body.uid,), t1, t2, same_type)
                 off_l, off_b = len(locals_), len(blocks) + 1
                 cont = len(blocks)  # continuation block
                 locals_.extend(cin.locals)
@@ -150,7 +157,7 @@ def inlined(facts, body, depth=0, stack=(), t1=True, t2=True):
         d = dict(body.d)
         d['blocks'] = blocks
         d['locals'] = locals_
-        d['uid'] = body.uid + '#' + ('i' if t1 else '') + ('s' if t2 else '')
+        d['uid'] = body.uid + '#' + ('p' if t1 == 'p' else ('i' if t1 else '')) + ('s' if t2 else '')
         res = Body(d)
         res.inlined_from = body
     if depth == 0:
